@@ -57,7 +57,7 @@ let load_impl path =
       | "case" :: n :: _ -> cn := n
       | "o" :: sq :: lab :: rest ->
         (try Hashtbl.replace impl_tbl (!cn, int_of_string sq, lab) (List.map float_of_string (List.filter (fun x -> x <> "") rest))
-         with Failure _ -> ())
+         with Failure _ -> (if rest = ["throw"] then try Hashtbl.replace impl_tbl (!cn, int_of_string sq, lab) [nan] with Failure _ -> ()))
       | _ -> ()
     done with End_of_file -> ());
   close_in ic
@@ -487,6 +487,161 @@ let cons_cmd c cmd t seq =
      | None -> line "o" seq "qdplus" (fun () -> os "singular"))
   | _ -> ()
 
+(* ---------- curve commands (geometry / muscle addons) ---------- *)
+let eps_d = epsilon_float
+let cur_curve : float sSF option ref = ref None
+let cur_kind = ref ""
+let impl_get seq label = Hashtbl.find_opt impl_tbl (!cur_case, seq, label)
+let p6_of a k = { p0 = a.(k); p1 = a.(k + 1); p2 = a.(k + 2); p3 = a.(k + 3); p4 = a.(k + 4); p5 = a.(k + 5) }
+let curve_cmd cmd t seq =
+  let six () = let a = Array.init 6 (fun _ -> num t) in p6_of a 0 in
+  let utol = eps_d *. 1e6 and told = eps_d *. 1e2 and toli = eps_d *. 1e11 in
+  let mi0 = nat_of_int 12 and mi = nat_of_int 20 in
+  let value s x = ssf_value fo s x utol told toli mi0 mi 0.05 in
+  let deriv s k x = ssf_deriv fo s (nat_of_int k) x utol told toli mi0 mi 0.05 in
+  let where () =
+    match !cur_curve with
+    | None -> (match str t with "x" -> num t | _ -> nan)
+    | Some s ->
+      let xa = Array.of_list s.sX in let ns = Array.length xa in
+      (match str t with
+       | "x" -> num t
+       | "j" -> let k = integer t in if k >= ns then xa.(ns - 1).p5 else xa.(k).p0
+       | "f" -> let k = integer t in let fr = num t in let k = if k >= ns then ns - 1 else k in xa.(k).p0 +. fr *. (xa.(k).p5 -. xa.(k).p0)
+       | _ -> let side = integer t in let d = num t in if side = 0 then s.sx0 -. d else s.sx1 +. d) in
+  match cmd with
+  | "bez" ->
+    (match str t with
+     | "val" -> let u = num t in let p = six () in line "o" seq "bezval" (fun () -> od (bez_val fo u p))
+     | "du" -> let k = integer t in let u = num t in let p = six () in line "o" seq "bezdu" (fun () -> od (bez_du fo (nat_of_int k) u p))
+     | "dydx" -> let k = integer t in let u = num t in let x = six () in let y = six () in
+       line "o" seq "bezdydx" (fun () -> od (bez_dydx fo (nat_of_int k) u x y))
+     | "corner" ->
+       let x0 = num t in let y0 = num t in let d0 = num t in let x1 = num t in let y1 = num t in let d1 = num t in let cv = num t in
+       let re = sqrt eps_d in
+       if corner_ok fo x0 y0 d0 x1 y1 d1 cv re then begin
+         let (xp, yp) = corner_cp fo x0 y0 d0 x1 y1 d1 cv re in
+         line "o" seq "corner" (fun () -> List.iter od [xp.p0; xp.p1; xp.p2; xp.p3; xp.p4; xp.p5; yp.p0; yp.p1; yp.p2; yp.p3; yp.p4; yp.p5]);
+         (* the corner theorems' conclusions, evaluated on the implementation's control points *)
+         (match impl_get seq "corner" with
+          | Some l when List.length l = 12 ->
+            let a = Array.of_list l in let xi = p6_of a 0 and yi = p6_of a 6 in
+            let sl u d = abs_float (bez_du fo (S O) u yi -. d *. bez_du fo (S O) u xi) in
+            let cu u = abs_float (bez_du fo (S (S O)) u yi *. bez_du fo (S O) u xi -. bez_du fo (S O) u yi *. bez_du fo (S (S O)) u xi) in
+            let sc = 1. +. List.fold_left (fun m v -> max m (abs_float v)) 0. l in
+            if abs_float (d0 -. d1) > re then line "c" seq "corner_start_slope" (fun () -> od (sl 0. d0); od sc);
+            line "c" seq "corner_end_slope" (fun () -> od (sl 1. d1); od sc);
+            if abs_float (d0 -. d1) > re then line "c" seq "corner_start_curvature" (fun () -> od (cu 0.); od (sc *. sc));
+            line "c" seq "corner_end_curvature" (fun () -> od (cu 1.); od (sc *. sc))
+          | _ -> ()) end
+       else line "o" seq "corner" (fun () -> os "throw")
+     | "calcu" -> let ax = num t in let p = six () in let tol = num t in let m = integer t in
+       (match calc_u fo ax p tol told toli mi0 (nat_of_int m) 0.05 with
+        | Some u -> line "o" seq "calcu" (fun () -> od u);
+          (match impl_get seq "calcu" with
+           | Some [ui] -> line "c" seq "calcu_residual" (fun () -> od (max 0. (abs_float (bez_val fo ui p -. ax) -. tol)); od 1.)
+           | _ -> ())
+        | None -> line "o" seq "calcu" (fun () -> os "throw"))
+     | _ -> ())
+  | "curve" ->
+    let kind = str t in cur_kind := kind; cur_curve := None;
+    (match impl_get seq "xcp_raw", impl_get seq "ycp_raw", impl_get seq "dom" with
+     | Some xl, Some yl, Some [x0; x1; y0; y1; d0; d1] when List.length xl = List.length yl && List.length xl mod 6 = 0 && xl <> [] ->
+       let xa = Array.of_list xl and ya = Array.of_list yl in let ns = Array.length xa / 6 in
+       let xs = List.init ns (fun s -> p6_of xa (6 * s)) and ys = List.init ns (fun s -> p6_of ya (6 * s)) in
+       let s = { sX = xs; sY = ys; sx0 = x0; sx1 = x1; sy0 = y0; sy1 = y1; sd0 = d0; sd1 = d1 } in
+       cur_curve := Some s;
+       let sc = 1. +. List.fold_left (fun m v -> max m (abs_float v)) 0. (xl @ yl) in
+       (* the getters report the stored control points *)
+       (match impl_get seq "xcp", impl_get seq "ycp" with
+        | Some gx, Some gy when List.length gx = List.length xl && List.length gy = List.length yl ->
+          line "c" seq "curve_getters" (fun () -> od (List.fold_left2 (fun m a b -> max m (abs_float (a -. b))) 0. (gx @ gy) (xl @ yl)); od sc)
+        | _ -> line "c" seq "curve_getters" (fun () -> od 1.; od 0.));
+       (* hypotheses of the junction / extrapolation theorems, evaluated on the control points *)
+       let du1 u p = bez_du fo (S O) u p and du2 u p = bez_du fo (S (S O)) u p in
+       let slope u xp yp = du1 u yp /. du1 u xp in
+       let curv u xp yp = let a = du1 u xp in (du2 u yp *. a -. du1 u yp *. du2 u xp) /. (a *. a *. a) in
+       let xsa = Array.of_list xs and ysa = Array.of_list ys in
+       let degenerate = ref false in
+       Array.iter (fun xp -> if du1 0. xp = 0. || du1 1. xp = 0. then degenerate := true) xsa;
+       let jv = ref 0. and js = ref 0. and jc = ref 0. in
+       for k = 0 to ns - 2 do
+         jv := max !jv (max (abs_float (xsa.(k).p5 -. xsa.(k + 1).p0)) (abs_float (ysa.(k).p5 -. ysa.(k + 1).p0)));
+         if not !degenerate then begin
+           js := max !js (abs_float (slope 1. xsa.(k) ysa.(k) -. slope 0. xsa.(k + 1) ysa.(k + 1)));
+           jc := max !jc (abs_float (curv 1. xsa.(k) ysa.(k) -. curv 0. xsa.(k + 1) ysa.(k + 1))) end
+       done;
+       line "c" seq "curve_join_value" (fun () -> od !jv; od sc);
+       line "i" seq "curve_degenerate_end" (fun () -> ou (if !degenerate then 1 else 0));
+       if not !degenerate then begin
+         let ssc = 1. +. abs_float d0 +. abs_float d1 in
+         line "c" seq "curve_join_slope" (fun () -> od !js; od (1e3 *. ssc));
+         line "c" seq "curve_join_curvature" (fun () -> od !jc; od (1e6 *. ssc));
+         (* ends: value, slope, zero curvature -> the linear extrapolation joins C2 *)
+         let e0 = max (abs_float (xsa.(0).p0 -. x0)) (abs_float (ysa.(0).p0 -. y0)) and e1 = max (abs_float (xsa.(ns - 1).p5 -. x1)) (abs_float (ysa.(ns - 1).p5 -. y1)) in
+         line "c" seq "curve_end_values" (fun () -> od (max e0 e1); od sc);
+         line "c" seq "curve_end_slopes" (fun () -> od (max (abs_float (slope 0. xsa.(0) ysa.(0) -. d0)) (abs_float (slope 1. xsa.(ns - 1) ysa.(ns - 1) -. d1))); od (1e3 *. ssc));
+         line "c" seq "curve_end_curvature" (fun () -> od (max (abs_float (curv 0. xsa.(0) ysa.(0))) (abs_float (curv 1. xsa.(ns - 1) ysa.(ns - 1)))); od (1e6 *. ssc)) end;
+       (* x control points non-decreasing (dx/du >= 0 on [0,1]); y control points monotone for curves documented as monotonic *)
+       let mono l = let rec inc = function a :: (b :: _ as r) -> a <= b +. 1e-12 *. (1. +. abs_float a +. abs_float b) && inc r | _ -> true in inc l in
+       let xmono = List.for_all (fun p -> mono [p.p0; p.p1; p.p2; p.p3; p.p4; p.p5]) xs in
+       line "c" seq "curve_x_monotone" (fun () -> od (if xmono then 0. else 1.); od 0.);
+       let yl6 p = [p.p0; p.p1; p.p2; p.p3; p.p4; p.p5] in
+       let ymono_inc = List.for_all (fun p -> mono (yl6 p)) ys and ymono_dec = List.for_all (fun p -> mono (List.rev (yl6 p))) ys in
+       (match kind with
+        | "fv" | "fvinv" | "fpe" | "ft" | "fcphi" -> line "c" seq "curve_y_monotone" (fun () -> od (if ymono_inc then 0. else 1.); od 0.)
+        | "fcl" | "fccos" -> line "c" seq "curve_y_monotone" (fun () -> od (if ymono_dec then 0. else 1.); od 0.)
+        | _ -> ())
+     | _ -> ())
+  | "cval" ->
+    let x = where () in
+    (match impl_get seq "cval" with
+     | Some [v] when Float.is_nan v -> line "c" seq "curve_value_defined" (fun () -> od 1.; od 0.)   (* the library threw inside its own domain *)
+     | _ -> ());
+    (match !cur_curve with
+     | Some s -> (match value s x with Some v -> line "o" seq "cval" (fun () -> od v) | None -> line "o" seq "cval" (fun () -> os "throw"))
+     | None -> line "o" seq "cval" (fun () -> os "nocurve"))
+  | "cder" ->
+    let k = integer t in let x = where () in
+    (match impl_get seq "cder" with
+     | Some [v] when Float.is_nan v -> line "c" seq "curve_derivative_defined" (fun () -> od 1.; od 0.)
+     | _ -> ());
+    (match !cur_curve with
+     | Some s -> (match deriv s k x with Some v -> line "o" seq "cder" (fun () -> od v) | None -> line "o" seq "cder" (fun () -> os "throw"))
+     | None -> line "o" seq "cder" (fun () -> os "nocurve"))
+  | "cinv" ->
+    let fr = num t in let _gf = num t in
+    (match !cur_curve, impl_get seq "cinv" with
+     | Some s, Some [xi] when Float.is_finite xi ->
+       let y = s.sy0 +. fr *. (s.sy1 -. s.sy0) in
+       (match value s xi with
+        | Some v -> line "c" seq "cinv_preimage" (fun () -> od (abs_float (v -. y)); od (1. +. abs_float y))
+        | None -> ())
+     | _ -> ())
+  | "tmuscle" ->
+    (* the torque muscle is not modelled: the residuals are computed from the implementation's own outputs *)
+    let _ds = integer t in let _g = integer t in let _a = integer t in let _j = integer t in
+    let _ang = num t in let _vel = num t in let act = num t in
+    (match impl_get seq "tm_tau", impl_get seq "tm_act", impl_get seq "tm_mult", impl_get seq "tm_partials", impl_get seq "tm_fd" with
+     | Some [tau; tau2], Some [a2], Some [ta; tv; _tp], Some [da; dq; dw], Some [ap; am; qp; qm; wp; wm] ->
+       let h = 1e-6 in
+       line "c" seq "tm_info_torque" (fun () -> od (abs_float (tau -. tau2)); od (abs_float tau));
+       if abs_float (ta *. tv) > 1e-3 then line "c" seq "tm_activation_inverts" (fun () -> od (abs_float (a2 -. act)); od 1e2);
+       let sc = 1e3 *. (1. +. abs_float tau) in
+       line "c" seq "tm_partial_activation" (fun () -> od (abs_float (da -. (ap -. am) /. (2. *. h))); od (sc +. abs_float da));
+       line "c" seq "tm_partial_angle" (fun () -> od (abs_float (dq -. (qp -. qm) /. (2. *. h))); od (sc +. abs_float dq));
+       line "c" seq "tm_partial_velocity" (fun () -> od (abs_float (dw -. (wp -. wm) /. (2. *. h))); od (sc +. abs_float dw))
+     | _ -> ())
+  | "cshift" ->
+    let dx = num t in let dy = num t in
+    (match !cur_curve with Some s -> cur_curve := Some (ssf_shift fo s dx dy); line "o" seq "cshift" (fun () -> os "ok")
+                         | None -> line "o" seq "cshift" (fun () -> os "nocurve"))
+  | "cscale" ->
+    let kx = num t in let ky = num t in
+    (match !cur_curve with Some s -> cur_curve := Some (ssf_scale fo s kx ky); line "o" seq "cscale" (fun () -> os "ok")
+                         | None -> line "o" seq "cscale" (fun () -> os "nocurve"))
+  | _ -> ()
+
 let run_line c (l : string) seq =
   let t = toks l in
   if more t then begin
@@ -792,6 +947,7 @@ let run_line c (l : string) seq =
         List.iter (fun ax ->
           c.crows <- c.crows @ [RLoop (n_of_int idp, n_of_int ids, xp, xs, ax, baum, ts)];
           (try c.srows <- c.srows @ [SLoop (ref_node c rp, ref_node c rsn, xp, xs, ax)] with Not_found -> ())) axs
+      | "bez" | "curve" | "cval" | "cder" | "cinv" | "cshift" | "cscale" | "tmuscle" -> curve_cmd cmd t seq
       | "ik1" ->
         let nn = nat_of_int n_qd in
         let step = (str t = "step") in let sfx = if step then "" else "_full" in
@@ -903,7 +1059,7 @@ let main () =
   if !cname <> "" then cases := (!cname, List.rev !cur) :: !cases;
   List.iter (fun (name, lines) ->
     Buffer.clear buf;
-    pf "case %s\n" name; cur_case := name;
+    pf "case %s\n" name; cur_case := name; cur_curve := None;
     let c = ref (new_ctx ()) in
     List.iteri (fun k l -> if l = "newmodel" then c := new_ctx () else run_line !c l k) lines;
     pf "endcase %s\n" name;
